@@ -121,7 +121,9 @@ theorem bytes_preserved_file {t t' : Tree} {x : Transfer} {src : Loc} {c : List 
     simp only at h
     split at h
     · cases h
-    · exact ⟨rfl, (writeFile_ok h).1⟩
+    · split at h
+      · cases h
+      · exact ⟨rfl, (writeFile_ok h).1⟩
 
 /-- **bytes preserved (directory source)**: when copying a directory succeeds, every file below it (at relative path `rel`)
 is found at `destination/rel` with exactly its bytes -/
@@ -134,8 +136,10 @@ theorem bytes_preserved_dir {t t' : Tree} {x : Transfer} {src : Loc}
   simp only at h
   split at h
   · cases h
-  · have hmem : (rel, c) ∈ filesUnder t src.path := mem_filesUnder.mpr ⟨hdom, hrel, hfile⟩
-    exact (writeAll_spec _ _ _ _ h).2.2.2.2 (filesUnder_functional t src.path) (rel, c) hmem
+  · split at h
+    · cases h
+    · have hmem : (rel, c) ∈ filesUnder t src.path := mem_filesUnder.mpr ⟨hdom, hrel, hfile⟩
+      exact (writeAll_spec _ _ _ _ h).2.2.2.2 (filesUnder_functional t src.path) (rel, c) hmem
 
 /-- the destinations of one source -/
 def destPaths (t : Tree) (x : Transfer) (src : Loc) : List Path :=
@@ -165,19 +169,23 @@ theorem untouched_elsewhere {t t' : Tree} {x : Transfer} {src : Loc} (h : copySo
         simp only at h
         split at h
         · cases h
-        · obtain ⟨_, w2, w3, _, _⟩ := writeFile_ok h
-          have hne : q ≠ (fullDest t x src).1 := by simpa using hq
-          exact ⟨w3 q hne, fun ha => w2 q hne (ha _ (by simp))⟩
+        · split at h
+          · cases h
+          · obtain ⟨_, w2, w3, _, _⟩ := writeFile_ok h
+            have hne : q ≠ (fullDest t x src).1 := by simpa using hq
+            exact ⟨w3 q hne, fun ha => w2 q hne (ha _ (by simp))⟩
     | dir =>
       rw [hsrc] at h hq
       simp only at h
       split at h
       · cases h
-      · obtain ⟨_, _, s3, s4, _⟩ := writeAll_spec _ _ _ _ h
-        have hne : ∀ f ∈ filesUnder t src.path, q ≠ (fullDest t x src).1 ++ f.1 := by
-          intro f hf hc
-          exact hq (List.mem_map.mpr ⟨f, hf, hc.symm⟩)
-        refine ⟨s3 q hne, fun ha => s4 q fun f hf => ⟨hne f hf, ha _ (List.mem_map.mpr ⟨f, hf, rfl⟩)⟩⟩
+      · split at h
+        · cases h
+        · obtain ⟨_, _, s3, s4, _⟩ := writeAll_spec _ _ _ _ h
+          have hne : ∀ f ∈ filesUnder t src.path, q ≠ (fullDest t x src).1 ++ f.1 := by
+            intro f hf hc
+            exact hq (List.mem_map.mpr ⟨f, hf, hc.symm⟩)
+          refine ⟨s3 q hne, fun ha => s4 q fun f hf => ⟨hne f hf, ha _ (List.mem_map.mpr ⟨f, hf, rfl⟩)⟩⟩
 
 /-- nothing is ever removed and no path changes between file and directory — for one source, one transfer, any list of transfers -/
 theorem copySource_keeps_kinds {t t' : Tree} {x : Transfer} {src : Loc} (h : copySource t x src = .ok t') : KeepsKinds t t' := by
@@ -186,11 +194,15 @@ theorem copySource_keeps_kinds {t t' : Tree} {x : Transfer} {src : Loc} (h : cop
   · simp only at h
     split at h
     · cases h
-    · exact writeFile_keepsKinds h
+    · split at h
+      · cases h
+      · exact writeFile_keepsKinds h
   · simp only at h
     split at h
     · cases h
-    · exact (writeAll_spec _ _ _ _ h).1
+    · split at h
+      · cases h
+      · exact (writeAll_spec _ _ _ _ h).1
   · cases h
 
 private theorem foldlM_keeps {α : Type} (f : Tree → α → Except Err Tree) (hf : ∀ t a t', f t a = .ok t' → KeepsKinds t t') :
@@ -226,14 +238,14 @@ theorem missing_source (t : Tree) (x : Transfer) (src : Loc)
 
 /-- file onto directory → IsADirectoryError: the target is declared a directory (`dest/` with DEST_IS_TARGET) or is one -/
 theorem file_onto_directory (t : Tree) (x : Transfer) (src : Loc) (c : List Nat) (hsrc : t.get src.path = some (.file c))
-    (hs : src.slash = false)
+    (hs : src.slash = false) (hstat : destStatFails t x = false)
     (h : (fullDest t x src).2 = some .dir ∨
       (t.get (fullDest t x src).1 = some .dir ∧
         ∀ k, 0 < k → k < (fullDest t x src).1.length → isFile (t.get ((fullDest t x src).1.take k)) = false)) :
     copySource t x src = .error .isADir := by
   unfold copySource
   rw [hsrc, hs]
-  simp only
+  simp only [hstat, Bool.false_eq_true, if_false]
   rcases h with h | ⟨hd, hanc⟩
   · rw [if_pos h]
   · by_cases h2 : (fullDest t x src).2 = some .dir
@@ -251,13 +263,15 @@ theorem file_onto_directory (t : Tree) (x : Transfer) (src : Loc) (c : List Nat)
       rw [this]
       simp [hd]
 
-/-- directory onto file → NotADirectoryError: INFER_DEST finds a file at the destination -/
+/-- directory onto file → NotADirectoryError: INFER_DEST finds a file at the destination (or on the way to it) -/
 theorem directory_onto_file (t : Tree) (x : Transfer) (src : Loc) (hsrc : t.get src.path = some .dir)
-    (h : (fullDest t x src).2 = some .file) : copySource t x src = .error .notADir := by
+    (h : (fullDest t x src).2 = some .file ∨ destStatFails t x = true) : copySource t x src = .error .notADir := by
   unfold copySource
   rw [hsrc]
   simp only
-  rw [if_pos h]
+  rcases h with h | h
+  · rw [if_pos h]; split <;> rfl
+  · rw [if_pos h]
 
 /-- a list of sources cannot be copied to a single target → NotADirectoryError -/
 theorem source_list_onto_target (t : Tree) (x : Transfer) (h : x.mode = .destIsTarget) (hl : x.single = false) :
